@@ -502,10 +502,21 @@ Commit == /\ tx.kind # "none"
 
 \* the application changes an object it obtained from the MDIB outside of any transaction (C03 isolation):
 \* src names the hand-out channel.  In the model nothing happens.
+\* (kept_raw: the kept entity object itself, as it is - after it was written in a transaction it is still the
+\*  application's private object.  Its label: kind of the entity, whether the last transaction wrote it, how that ended.)
+LastEnd == LET ends == {i \in DOMAIN hist : hist[i].act \in {"Commit", "Abort"}} IN
+           IF ends = {} THEN 0 ELSE CHOOSE i \in ends : \A j \in ends : j <= i
+LastBegin == LET bs == {i \in DOMAIN hist : hist[i].act = "Begin"} IN IF bs = {} THEN 0 ELSE CHOOSE i \in bs : \A j \in bs : j <= i
+RawSit == IF kept = NoneP THEN {}
+          ELSE {"K:raw:" \o Kind[kept] \o ":"
+                  \o (IF \E i \in LastBegin..Len(hist) : i > 0 /\ hist[i].act = "WriteKeptEntity" /\ hist[i].res = "ok"
+                      THEN "written" ELSE "-")
+                  \o ":" \o (IF LastEnd = 0 THEN "-" ELSE hist[LastEnd].act)}
 MutateCopy(src, t) == /\ tx.kind = "none" /\ ntx > 0 /\ ntx < MaxTx
                       /\ Len(hist) > 0 /\ hist[Len(hist)].act # "MutateCopy"
                       /\ UNCHANGED <<m, tx, ntx>>
-                      /\ Log([act |-> "MutateCopy", src |-> src, t |-> t, res |-> "ok"])
+                      /\ Log([act |-> "MutateCopy", src |-> src, t |-> t, res |-> "ok",
+                              sit |-> IF src = "kept_raw" THEN RawSit ELSE {}])
 
 \* the application obtains an entity between two transactions and keeps the object
 KeepEntity(h) == /\ tx.kind = "none" /\ kept = NoneP /\ ntx < MaxTx
@@ -515,7 +526,7 @@ KeepEntity(h) == /\ tx.kind = "none" /\ kept = NoneP /\ ntx < MaxTx
 
 Next == \/ \E src \in {"getter", "entity", "result"}, t \in Tok : MutateCopy(src, t)
         \* the kept entity is refreshed with update() and then changed: "kept_new" changes only what update() added
-        \/ \E src \in {"kept_upd", "kept_new"}, t \in Tok : kept # NoneP /\ m.D[kept].present /\ MutateCopy(src, t)
+        \/ \E src \in {"kept_upd", "kept_new", "kept_raw"}, t \in Tok : kept # NoneP /\ m.D[kept].present /\ MutateCopy(src, t)
         \/ \E h \in KeepH : KeepEntity(h)
         \/ \E h \in H, t \in Tok : SWriteKept(h, t) \/ DWriteKept(h, t)
         \/ \E h1, h2 \in H, t \in Tok : SWriteEntities(h1, h2, t) \/ DWriteEntities(h1, h2, t)
